@@ -1175,7 +1175,10 @@ class ModelBuilder:
                             if dep_task is source_task:
                                 already_exists = True
                                 break
-                        if not already_exists:
+                        # A bare duplicate adds nothing, but an entry that carries options
+                        # (a gap, on-start) is a constraint of its own even if the target
+                        # already names the source in its 'depends'.
+                        if not already_exists or options:
                             # The list attribute appends on assignment: hand over only the
                             # new entry (re-assigning the whole list duplicated every entry).
                             if options:
